@@ -122,6 +122,11 @@ def cases(tier, rng):
                 lines.append("dmecc %d %s" % (i, hx(d)))
     for c in rs_py.dm_zero_contents(rng, per=1 if quick else 6):
         lines.append("dm " + hx(c))
+    # blocks whose LAST division step has scale exactly 1, each followed by an ordinary content of the same size
+    # (a shortcut for "multiply by 1" that returns its operand must not let a later step write into a cached generator)
+    for c in rs_py.dm_scale_one_contents(rng, 2 if quick else 10):
+        lines.append("dm " + hx(c))
+        lines.append("dm " + hx(bytes(rng.randrange(65, 91) for _ in range(len(c)))))
     import gaps
     for t in gaps.dm_misaligned_digits(CAPS):
         lines.append("dm " + hx(t.encode()))
